@@ -166,6 +166,57 @@ def _core_cases(skey, flags=""):
     return out
 
 
+# counted quantifiers with every small pair of bounds (including 0 repetitions), greedy and lazy, on several kinds of body
+COUNTED_BODIES = ["a", "(a)", "(?:ab)", "[ab]", "(a|b)", "(a)\\1", "(?:a|(b))", "(?=a)", "a?", "(a*)", "\\w"]
+COUNTED_FRAMES = ["%s", "%sb", "c%s", "^%s$", "(?:%s)+c", "(%s)*", "%s\\1"]
+
+
+def _counted_cases():
+    from mc.oracle.regexref import parse
+    out, seen = [], set()
+    bounds = ["{0}", "{0,0}", "{0,1}", "{1}", "{1,1}", "{0,}", "{1,}", "{2}", "{2,}", "{0,2}", "{1,2}", "{2,3}", "{3}", "{0,3}", "{10}", "{0,10}"]
+    for body in COUNTED_BODIES:
+        for b in bounds:
+            for lazy in ("", "?"):
+                for frame in COUNTED_FRAMES:
+                    if "\\1" in frame and not any(body[i] == "(" and body[i + 1:i + 2] != "?" for i in range(len(body))):
+                        continue        # \1 needs a capturing group (otherwise it is a legacy octal escape)
+                    if "10" in b and frame in ("(?:%s)+c", "(%s)*"):
+                        continue        # exponential by construction: that is C10's subject, not this one's
+                    src = frame % (body + b + lazy)
+                    if src in seen:
+                        continue
+                    seen.add(src)
+                    try:
+                        ast = parse(src)
+                    except ValueError:
+                        continue
+                    out.append(("/%s/ on abc_5" % src, {"p": src, "f": "", "ast": ast, "s": "abc_5", "script": False}))
+    return out
+
+
+# ten and more groups: two-digit back-references before, between and after their groups, also inside lookbehind
+MANYGROUP = [
+    r"()()()()()()()()()(a)\10", r"\10()()()()()()()()()(a)", r"()()()()()()()()()(a)(?<=\10b)c", r"()()()()()()()()()(a)\1\10\11",
+    r"()()()()()()()()()()(b)\11", r"(a)(b)?()()()()()()()(c)\10\2", r"()()()()()()()()(a)\10(b)", r"()()()()()()()()()(a)|\10b",
+    r"(?:()()()()()()()()()(a))+\10", r"()()()()()()()()()(a)(?=\10)", r"()()()()()()()()()(a)(?<=\10)", r"(?<=\10()()()()()()()()()(a))b",
+    r"()()()()()()()()()(a)\10{2}", r"()()()()()()()()()([ab])\10*c", r"()()()()()()()()()()()(c)\12",
+]
+
+
+def _manygroup_cases():
+    from mc.oracle.regexref import parse
+    out = []
+    for src in MANYGROUP:
+        for w in ("%s", "(?:%s)*", "^(?:%s)$", "(?:%s)?c"):
+            try:
+                ast = parse(w % src)
+            except ValueError:
+                continue
+            out.append(("/%s/ on abc_5" % (w % src), {"p": w % src, "f": "", "ast": ast, "s": "abc_5", "script": False}))
+    return out
+
+
 # ---------------------------------------------------------------------------------------------
 # class escapes and case-insensitive matching on non-ASCII characters (expected = V8 table)
 
@@ -238,6 +289,10 @@ def spaces(tier, seed, all_strata=False):
         _space("c09_flag_i", lambda: _cases(3, G.ATOMS12, "i", "aAb_4"), "size <= 3, flag i, subjects over {a,A,b}", "size <= 3"),
         _space("c09_flag_m", lambda: _cases(3, G.ATOMS12, "m", "abn_4"), "size <= 3, flag m, subjects over {a,b,\\n}", "size <= 3"),
         _space("c09_flag_s", lambda: _cases(3, G.ATOMS12, "s", "abn_4"), "size <= 3, flag s, subjects over {a,b,\\n}", "size <= 3"),
+        _space("c09_counted", _counted_cases, "11 bodies x 16 bound pairs ({0}, {0,0}, {1}, ... {0,10}) x greedy / lazy x 7 frames; every subject "
+               "over {a,b,c} up to length 5", "counted quantifiers"),
+        _space("c09_manygroups", _manygroup_cases, "18 patterns with ten and more groups and two-digit back-references placed before, between and "
+               "after their groups and inside lookaround, x 4 wrappers", "many groups"),
         _uclass_space(),
     ]
     strata = []
